@@ -84,6 +84,8 @@ func main() {
 			genC18(rng, *n, *tier)
 		case "C19":
 			genC19(rng, *n, *tier)
+		case "C19gen":
+			genC19gen(rng, *n, *tier)
 		case "C20":
 			genC20(rng, *n, *tier)
 		default:
